@@ -5,16 +5,17 @@
   `output/html5elements.rs`, `output/html5_serializer.rs` and `serialize.rs`.
   Part 2: for every tree, start node, environment and parameter set — never a panic, the doctype,
   tags (`>` only, end tag ⇔ not void), unprefixed HTML / MathML / SVG names, text and attribute
-  escaping, refusal of processing instructions containing `>`.
-  Defects kept visible: `C19_xhtml_const_defect` (so "XHTML_NS" below is the namespace the crate's
-  constant names, the `https` spelling: the partial form of the property), `C19_embedded_defect`.
+  escaping, refusal of processing instructions containing `>`, and (full strength since /repo
+  f19bbd2) MathML / SVG / XHTML elements under a default-namespace declaration (`C19_embedded`).
+  Defect kept visible: `C19_xhtml_const_defect` (so "XHTML_NS" below is the namespace the crate's
+  constant names, the `https` spelling: the partial form of the property).
 -/
 import XotModel.Lemmas.Html5Esc
 import XotModel.Lemmas.Html5Names
 import XotModel.Lemmas.Html5Stream
 import XotModel.Lemmas.Html5Ctx
 import XotModel.Lemmas.Html5Embedded
-import XotModel.Lemmas.Html5Stack2
+import XotModel.Lemmas.Html5Top
 
 namespace XotModel.Props
 open XotModel XotModel.Gen
@@ -147,7 +148,7 @@ theorem C19_doctype (env : Env) (p : HtmlParams) (t : Tree) (start : Path) (out 
 /-! ### Tags -/
 
 /-- A start tag is always closed by `>`: there is no self-closing form. -/
-theorem C19_tags_close (c : HtmlCtx) (s : FStack) (node : Tree) (parent : Option Tree) :
+theorem C19_tags_close (c : HtmlCtx) (s : HState) (node : Tree) (parent : Option Tree) :
     renderHtml c s node parent .startTagClose = .ok (s, ⟨false, ['>']⟩) := rfl
 
 /-- Which elements are void: HTML namespace (none or `XHTML_NS`) and the lower-cased local name in
@@ -158,11 +159,11 @@ theorem C19_tags_void_iff (c : HtmlCtx) (name : Nat) :
   void_matches_eq c.h c.env name
 
 /-- The end-tag token is empty exactly for void elements; otherwise it is `</name>`. -/
-theorem C19_tags_end (c : HtmlCtx) (s s' : FStack) (node : Tree) (parent : Option Tree) (name : Nat)
+theorem C19_tags_end (c : HtmlCtx) (s s' : HState) (node : Tree) (parent : Option Tree) (name : Nat)
     (tok : OutputToken) (h : renderHtml c s node parent (.endTag name) = .ok (s', tok)) :
     (tok.text = [] ↔ c.h.void.matches c.env name = true) ∧
     (c.h.void.matches c.env name = false →
-      ∃ full, s.elementFullname c.env name = .ok full ∧ tok.text = ['<','/'] ++ full ++ ['>']) := by
+      ∃ full, s.stack.elementFullname c.env name = .ok full ∧ tok.text = ['<','/'] ++ full ++ ['>']) := by
   simp only [renderHtml] at h
   by_cases hv : c.h.void.matches c.env name = true
   · simp only [hv, if_true, Outcome.ok.injEq, Prod.mk.injEq] at h
@@ -170,7 +171,7 @@ theorem C19_tags_end (c : HtmlCtx) (s s' : FStack) (node : Tree) (parent : Optio
     simp [hv, litHtmlVoidEndTag]
   · have hv' : c.h.void.matches c.env name = false := by simpa using hv
     simp only [hv', Bool.false_eq_true, if_false] at h
-    cases hf : s.elementFullname c.env name with
+    cases hf : s.stack.elementFullname c.env name with
     | error e => rw [hf] at h; cases h
     | ok full =>
       rw [hf] at h
@@ -184,7 +185,7 @@ theorem C19_tags_end (c : HtmlCtx) (s s' : FStack) (node : Tree) (parent : Optio
     with its bare local name: `<name`, or `<name xmlns="…"` when the serialiser injects the default
     declaration.  (`hxml`: the namespace is not the XML namespace — true of every `Xot`, see
     `C19_ids_ne_xml`.) -/
-theorem C19_unprefixed (c : HtmlCtx) (s s' : FStack) (node : Tree) (parent : Option Tree) (name : Nat)
+theorem C19_unprefixed (c : HtmlCtx) (s s' : HState) (node : Tree) (parent : Option Tree) (name : Nat)
     (tok : OutputToken)
     (hns : c.h.isHtmlNamespace (c.env.nsOfName name) = true ∨ c.h.mustBeUnprefixed (c.env.nsOfName name) = true)
     (hxml : c.env.nsOfName name ≠ Env.xmlNamespace)
@@ -200,7 +201,8 @@ theorem C19_unprefixed (c : HtmlCtx) (s s' : FStack) (node : Tree) (parent : Opt
     simp [fmt, fmtHtmlStartTagOpenNs]
   · rename_i hcond
     left
-    have hfull : (s.push node.nsDecls).elementFullname c.env name = .ok (c.env.localName name) := by
+    have hfull : (s.stack.push (htmlDeclarations node (c.env.nsOfName name))).elementFullname c.env name =
+        .ok (c.env.localName name) := by
       unfold FStack.elementFullname FStack.elementPrefix
       by_cases h0 : (c.env.nsOfName name == Env.noNamespace) = true
       · simp [h0, qname]
@@ -212,7 +214,8 @@ theorem C19_unprefixed (c : HtmlCtx) (s s' : FStack) (node : Tree) (parent : Opt
             · simp [Html5Elements.mustBeUnprefixed, hh]
             · exact absurd hh h0
           · exact hm
-        have hhas : (s.push node.nsDecls).hasEmptyPrefix (c.env.nsOfName name) = true := by
+        have hhas : (s.stack.push (htmlDeclarations node (c.env.nsOfName name))).hasEmptyPrefix
+            (c.env.nsOfName name) = true := by
           simpa [hmust] using hcond
         simp only [FStack.hasEmptyPrefix, beq_iff_eq] at hhas
         simp [h0, h1, hhas, qname]
@@ -227,25 +230,24 @@ theorem C19_ids_ne_xml (env : Env) (p : HtmlParams) (hxml : env.namespaces[Env.x
     (htmlCtx env p).h.xhtml ≠ Env.xmlNamespace ∧ (htmlCtx env p).h.mathml ≠ Env.xmlNamespace ∧
     (htmlCtx env p).h.svg ≠ Env.xmlNamespace := html5_new_ne_xml env hxml
 
-/-- MathML / SVG (and `XHTML_NS`) elements: the default declaration of the element's own namespace
-    is written into the start tag whenever the name stack holds no default binding for that
-    namespace.  `hno` is the boundary of the defect `C19_embedded_defect`: the stack may hold a
-    stale binding (injected for an earlier element that had no frame of its own, or overridden by
-    a nearer injected one), and then nothing is written. -/
-theorem C19_embedded_partial (c : HtmlCtx) (s : FStack) (node : Tree) (parent : Option Tree) (name : Nat)
+/-- Token level: the default declaration of the element's own namespace is written into the start
+    tag whenever the name stack (after the element's own written declarations) holds no default
+    binding for that namespace; the binding gets a frame of its own. -/
+theorem C19_embedded_inject (c : HtmlCtx) (s : HState) (node : Tree) (parent : Option Tree) (name : Nat)
     (hm : c.h.mustBeUnprefixed (c.env.nsOfName name) = true)
-    (hno : (s.push node.nsDecls).hasEmptyPrefix (c.env.nsOfName name) = false) :
+    (hno : (s.stack.push (htmlDeclarations node (c.env.nsOfName name))).hasEmptyPrefix (c.env.nsOfName name) = false) :
     ∃ s', renderHtml c s node parent (.startTagOpen name) = .ok (s',
       ⟨false, ['<'] ++ c.env.localName name ++ [' ','x','m','l','n','s','=','"']
         ++ serializeAttributeHtml (c.env.namespaceStr (c.env.nsOfName name)) ++ ['"']⟩) := by
-  refine ⟨(s.push node.nsDecls).addEmptyPrefix (c.env.nsOfName name), ?_⟩
+  refine ⟨⟨(s.stack.push (htmlDeclarations node (c.env.nsOfName name))).push [(Env.emptyPrefix, c.env.nsOfName name)],
+    ((if (htmlDeclarations node (c.env.nsOfName name)).isEmpty then 0 else 1) + 1) :: s.frames⟩, ?_⟩
   simp only [renderHtml, hm, hno]
   simp [fmt, fmtHtmlStartTagOpenNs]
 
 /-! ### Text -/
 
 /-- The text token is the text run through the function its parent selects. -/
-theorem C19_text (c : HtmlCtx) (s s' : FStack) (node : Tree) (parent : Option Tree) (text : Str)
+theorem C19_text (c : HtmlCtx) (s s' : HState) (node : Tree) (parent : Option Tree) (text : Str)
     (tok : OutputToken) (h : renderHtml c s node parent (.text text) = .ok (s', tok)) :
     tok.space = false ∧ tok.text = htmlTextValue c parent text := by
   simp only [renderHtml, Outcome.ok.injEq, Prod.mk.injEq] at h
@@ -307,20 +309,20 @@ theorem C19_text_cdata (c : HtmlCtx) (parent : Option Tree) (text : Str) (pn : N
 
 /-- An attribute token is the bare name (boolean attribute) or `name="value"` where the value
     holds no `"` and every `&` in it starts a character reference. -/
-theorem C19_attr (c : HtmlCtx) (s s' : FStack) (node : Tree) (parent : Option Tree) (name : Nat)
+theorem C19_attr (c : HtmlCtx) (s s' : HState) (node : Tree) (parent : Option Tree) (name : Nat)
     (value : Str) (tok : OutputToken)
     (h : renderHtml c s node parent (.attribute name value) = .ok (s', tok)) :
-    ∃ full, s.attributeFullname c.env name = .ok full ∧ tok.space = true ∧
+    ∃ full, s.stack.attributeFullname c.env name = .ok full ∧ tok.space = true ∧
       ((tok.text = full ∧ asciiLower (c.env.localName name) = asciiLower value) ∨
        (∃ v, tok.text = full ++ ['=','"'] ++ v ++ ['"'] ∧ '"' ∉ v ∧ refsOnly knownRefs v = true)) := by
   simp only [renderHtml] at h
-  cases hf : s.attributeFullname c.env name with
+  cases hf : s.stack.attributeFullname c.env name with
   | error e => rw [hf] at h; cases h
   | ok full =>
     rw [hf] at h
     simp only at h
     refine ⟨full, rfl, ?_⟩
-    cases hb : htmlIsBooleanAttr c s name value with
+    cases hb : htmlIsBooleanAttr c s.stack name value with
     | error e => rw [hb] at h; cases h
     | ok b =>
       rw [hb] at h
@@ -347,7 +349,7 @@ theorem C19_attr (c : HtmlCtx) (s s' : FStack) (node : Tree) (parent : Option Tr
 
 /-- A namespace-declaration token is empty, `xmlns="uri"` or `xmlns:prefix="uri"`; the URI is
     escaped like an attribute value. -/
-theorem C19_attr_xmlns (c : HtmlCtx) (s s' : FStack) (node : Tree) (parent : Option Tree) (p ns : Nat)
+theorem C19_attr_xmlns (c : HtmlCtx) (s s' : HState) (node : Tree) (parent : Option Tree) (p ns : Nat)
     (tok : OutputToken) (h : renderHtml c s node parent (.pfx p ns) = .ok (s', tok)) :
     tok.text = [] ∨
     ∃ v, (tok.text = ['x','m','l','n','s','=','"'] ++ v ++ ['"'] ∨
@@ -373,7 +375,7 @@ theorem C19_attr_xmlns (c : HtmlCtx) (s s' : FStack) (node : Tree) (parent : Opt
 /-! ### Processing instructions -/
 
 /-- A processing instruction whose data contains `>` is refused, in every state. -/
-theorem C19_pi (c : HtmlCtx) (s : FStack) (node : Tree) (parent : Option Tree) (target : Nat) (d : Str)
+theorem C19_pi (c : HtmlCtx) (s : HState) (node : Tree) (parent : Option Tree) (target : Nat) (d : Str)
     (hd : '>' ∈ d) : ∃ e, renderHtml c s node parent (.pi target (some d)) = .err e := by
   have hc : d.contains htmlPiForbidden = true := by
     simpa [htmlPiForbidden] using hd
@@ -383,8 +385,8 @@ theorem C19_pi (c : HtmlCtx) (s : FStack) (node : Tree) (parent : Option Tree) (
   · exact ⟨_, rfl⟩
 
 /-- Otherwise it is written `<?target data>` / `<?target>` (no `?` before the `>`). -/
-theorem C19_pi_form (c : HtmlCtx) (s : FStack) (node : Tree) (parent : Option Tree) (target : Nat)
-    (data : Option Str) (s' : FStack) (tok : OutputToken)
+theorem C19_pi_form (c : HtmlCtx) (s : HState) (node : Tree) (parent : Option Tree) (target : Nat)
+    (data : Option Str) (s' : HState) (tok : OutputToken)
     (h : renderHtml c s node parent (.pi target data) = .ok (s', tok)) :
     (c.env.namespaceStr (c.env.nsOfName target)).isEmpty = true ∧
     match data with
@@ -447,7 +449,7 @@ theorem C19_pi_refused (env : Env) (p : HtmlParams) (t : Tree) (start : Path) (p
     call — so the token-level theorems above speak about every piece of every output. -/
 theorem C19_tokens (env : Env) (p : HtmlParams) (t : Tree) (start : Path) (out : Str)
     (h : serializeHtmlString env p t start = .ok out) :
-    ∃ l, renderHtmlAll (htmlCtx env p) t (initStack t start) (genOutputs t start) = .ok l ∧
+    ∃ l, renderHtmlAll (htmlCtx env p) t (htmlInitState (htmlCtx env p) t start) (genOutputs t start) = .ok l ∧
       (∀ k ∈ l, ∃ s1 s2 node, t.at? k.1 = some node ∧
         renderHtml (htmlCtx env p) s1 node (t.parentAt? k.1) k.2.1 = .ok (s2, k.2.2)) ∧
       ∃ decor : List (Nat × Bool), decor.length = l.length ∧
@@ -490,83 +492,73 @@ theorem C19_tokens (env : Env) (p : HtmlParams) (t : Tree) (start : Path) (out :
 /-- End tags: in every successful serialisation, the end tag of an element in no namespace, in
     `XHTML_NS`, MathML or SVG is `</local>` — the bare local name, like its start tag
     (`C19_unprefixed`) — or nothing at all when the element is void (`C19_tags_end`).  This is a
-    property of the whole run: the default binding the element saw at its start tag is still in
-    the name stack at its end tag, whatever its descendants pushed and popped in between. -/
+    property of the whole run: the frames an element's start tag pushes are exactly the frames its
+    end tag pops, so the name stack at the end tag is the one right after the start tag. -/
 theorem C19_unprefixed_end (env : Env) (p : HtmlParams) (t : Tree) (start : Path)
     (l : List (Path × Output × OutputToken))
-    (hl : renderHtmlAll (htmlCtx env p) t (initStack t start) (genOutputs t start) = .ok l) :
+    (hl : renderHtmlAll (htmlCtx env p) t (htmlInitState (htmlCtx env p) t start) (genOutputs t start) = .ok l) :
     ∀ k ∈ l, ∀ name, k.2.1 = .endTag name →
       ((htmlCtx env p).h.isHtmlNamespace ((htmlCtx env p).env.nsOfName name) = true ∨
         (htmlCtx env p).h.mustBeUnprefixed ((htmlCtx env p).env.nsOfName name) = true) →
       (htmlCtx env p).env.nsOfName name ≠ Env.xmlNamespace →
       k.2.2.text = [] ∨ k.2.2.text = ['<','/'] ++ (htmlCtx env p).env.localName name ++ ['>'] := by
   intro k hk name hname hns hxml
-  obtain ⟨sf, hrun⟩ := renderHtmlAll_run _ t _ _ l hl
-  unfold genOutputs at hrun
-  cases hn : t.at? start with
-  | none =>
-    simp only [hn, runHtml, Option.some.injEq, Prod.mk.injEq] at hrun
-    obtain ⟨_, rfl⟩ := hrun; simp at hk
-  | some n =>
-    cases hs : namespacesInScope t start with
-    | none =>
-      simp only [hn, hs, runHtml, Option.some.injEq, Prod.mk.injEq] at hrun
-      obtain ⟨_, rfl⟩ := hrun; simp at hk
-    | some inScope =>
-      simp only [hn, hs] at hrun
-      have hne : initStack t start ≠ [] := by simp [initStack, FStack.new]
-      exact (run_node _ t inScope n true start _ sf l hne hrun).2 k hk name hname ⟨hns, hxml⟩
+  exact (run_top False (fun h => h.elim) (fun h => h.elim) t start l hl).2 k hk name hname ⟨hns, hxml⟩
 
-/-! ### MathML / SVG under a default-namespace declaration: false as stated -/
+/-! ### MathML / SVG / XHTML under a default-namespace declaration -/
 
-/-- Full strength: in every successful serialisation, every MathML / SVG start tag is written
-    while the default namespace declared by the written start tags around it (its own included)
-    is the element's namespace. -/
-def C19_embedded_Statement : Prop :=
-  ∀ (env : Env) (p : HtmlParams) (t : Tree) (start : Path) (l : List (Path × Output × OutputToken)),
-    renderHtmlAll (htmlCtx env p) t (initStack t start) (genOutputs t start) = .ok l →
-    embeddedUnderDefault (htmlCtx env p) [] l = true
+/-- Full strength.  In every successful serialisation — any tree, start node, parameter set —
+    every start tag of an element in the MathML, SVG or `XHTML_NS` namespace is written (unprefixed,
+    `C19_unprefixed`) while the default namespace declared by the written start tags around it, its
+    own included, is the element's namespace: `embeddedUnderDefault` replays the tokens, tracking
+    only `xmlns="…"` as written.  Hypotheses on the vocabulary: namespace 1 is the XML namespace
+    (`Xot::new`), and no local name or prefix contains a space (the replay tells `<name xmlns="…"`
+    from `<name` by its text).
+    Proof: the default binding on top of the name stack is, at every event, the default namespace
+    the output has in force (`DefaultInv`) — the injected binding has a frame of its own that
+    replaces older default bindings and ends with its element, and declarations the `Prefix` arm
+    hides never enter the stack. -/
+theorem C19_embedded (env : Env) (p : HtmlParams) (t : Tree) (start : Path)
+    (l : List (Path × Output × OutputToken))
+    (hxml : env.namespaces[Env.xmlNamespace]? = some xmlNs) (hsp : NoSpaces env)
+    (hl : renderHtmlAll (htmlCtx env p) t (htmlInitState (htmlCtx env p) t start) (genOutputs t start) = .ok l) :
+    embeddedUnderDefault (htmlCtx env p) l = true := by
+  have hsp' : NoSpaces (htmlCtx env p).env := by
+    obtain ⟨hn, hp⟩ := htmlCtx_names env p
+    exact ⟨fun n => by simpa [Env.localName, hn] using hsp.1 n, fun q => by simpa [Env.prefixStr, hp] using hsp.2 q⟩
+  have h := (run_top True (fun _ => htmlCtx_xml_not_unprefixed env p hxml) (fun _ => hsp') t start l hl).1 trivial
+  simp [embeddedUnderDefault, h]
 
-/-- The vocabulary of the witnesses: namespaces `""`, XML, SVG; names `div` (none), `svg` (SVG). -/
+/-- The vocabulary of the examples: namespaces `""`, XML, SVG, `XHTML_NS`; names `div` (none),
+    `svg` (SVG), `p` (`XHTML_NS`). -/
 def witnessEnv : Env :=
-  ⟨[[], xmlNs, svgNs], [[], ['x','m','l']], [(['s','p','a','c','e'], 1), (['i','d'], 1), (['d','i','v'], 0), (['s','v','g'], 2)]⟩
+  ⟨[[], xmlNs, svgNs, xhtmlNs], [[], ['x','m','l']],
+   [(['s','p','a','c','e'], 1), (['i','d'], 1), (['d','i','v'], 0), (['s','v','g'], 2), (['p'], 3)]⟩
 
-/-- `<div><svg/><svg/></div>`, both `svg` in the SVG namespace, no declarations anywhere. -/
-def witnessTwoSvg : Tree := .node (.element 2) [.node (.element 3) [], .node (.element 3) []]
+/-- The hypotheses of `C19_embedded` hold of it. -/
+example : witnessEnv.namespaces[Env.xmlNamespace]? = some xmlNs ∧ NoSpaces witnessEnv := by
+  refine ⟨by decide, fun n => ?_, fun q => ?_⟩
+  · rcases n with _ | _ | _ | _ | _ | n <;> simp [Env.localName, witnessEnv]
+  · rcases q with _ | _ | q <;> simp [Env.prefixStr, witnessEnv]
 
-/-- DEFECT (html5_serializer.rs `StartTagOpen` + fullname.rs `add_empty_prefix`): the binding
-    injected for the first `svg` is appended to the frame of `div` (the element pushed no frame of
-    its own) and is still there when the second `svg` starts, which is therefore written `<svg>`
-    with no declaration in scope. -/
-theorem C19_embedded_defect : ¬ C19_embedded_Statement := by
-  intro h
-  have := h witnessEnv {} witnessTwoSvg []
-    (match renderHtmlAll (htmlCtx witnessEnv {}) witnessTwoSvg (initStack witnessTwoSvg [])
-        (genOutputs witnessTwoSvg []) with | .ok l => l | _ => [])
-    (by decide)
-  revert this
-  decide
+/-- The replay does refuse a bare `<svg>` with no declaration around it (what the serialiser wrote
+    for the second `svg` of `<div><svg/><svg/></div>` before the fix). -/
+example : embeddedUnderDefault (htmlCtx witnessEnv {})
+    [([], .startTagOpen 3, ⟨false, ['<','s','v','g']⟩), ([], .startTagClose, ⟨false, ['>']⟩)] = false := by decide
 
-/-- What the implementation writes for the witness (the harness sees the same string). -/
-example : toHtmlString witnessEnv witnessTwoSvg [] = .ok
-    ['<','!','D','O','C','T','Y','P','E',' ','h','t','m','l','>','<','d','i','v','>','<','s','v','g',' ','x','m','l','n','s','=','"','h','t','t','p',':','/','/','w','w','w','.','w','3','.','o','r','g','/','2','0','0','0','/','s','v','g','"','>','<','/','s','v','g','>','<','s','v','g','>','<','/','s','v','g','>','<','/','d','i','v','>'] := by decide
+/-- The three shapes that used to lose the declaration (fixed in /repo f19bbd2).
+    `<div><svg/><svg/></div>`: each `svg` declares its namespace; -/
+example : toHtmlString witnessEnv (.node (.element 2) [.node (.element 3) [], .node (.element 3) []]) [] = .ok
+    ['<','!','D','O','C','T','Y','P','E',' ','h','t','m','l','>','<','d','i','v','>','<','s','v','g',' ','x','m','l','n','s','=','"','h','t','t','p',':','/','/','w','w','w','.','w','3','.','o','r','g','/','2','0','0','0','/','s','v','g','"','>','<','/','s','v','g','>','<','s','v','g',' ','x','m','l','n','s','=','"','h','t','t','p',':','/','/','w','w','w','.','w','3','.','o','r','g','/','2','0','0','0','/','s','v','g','"','>','<','/','s','v','g','>','<','/','d','i','v','>'] := by decide
 
-/-- Second cause: the injected binding does not replace an older one.  `svg > p > svg` with `p` in
-    `XHTML_NS`: the inner `svg` is written bare under the `xmlns` of `p`. -/
-example :
-    let env : Env := ⟨[[], xmlNs, svgNs, xhtmlNs], [[], ['x','m','l']],
-      [(['s','p','a','c','e'], 1), (['i','d'], 1), (['p'], 3), (['s','v','g'], 2)]⟩
-    let t : Tree := .node (.element 3) [.node (.element 2) [.node (.element 3) []]]
-    embeddedUnderDefault (htmlCtx env {}) []
-      (match renderHtmlAll (htmlCtx env {}) t (initStack t []) (genOutputs t []) with | .ok l => l | _ => []) = false := by
-  decide
+/-- `svg > p > svg` with `p` in `XHTML_NS`: the inner `svg` declares its namespace again; -/
+example : toHtmlString witnessEnv (.node (.element 3) [.node (.element 4) [.node (.element 3) []]]) [] = .ok
+    ['<','!','D','O','C','T','Y','P','E',' ','h','t','m','l','>','<','s','v','g',' ','x','m','l','n','s','=','"','h','t','t','p',':','/','/','w','w','w','.','w','3','.','o','r','g','/','2','0','0','0','/','s','v','g','"','>','<','p',' ','x','m','l','n','s','=','"','h','t','t','p','s',':','/','/','w','w','w','.','w','3','.','o','r','g','/','1','9','9','9','/','x','h','t','m','l','"','>','<','s','v','g',' ','x','m','l','n','s','=','"','h','t','t','p',':','/','/','w','w','w','.','w','3','.','o','r','g','/','2','0','0','0','/','s','v','g','"','>','<','/','s','v','g','>','<','/','p','>','<','/','s','v','g','>'] := by decide
 
-/-- Third cause: a default declaration the `Prefix` arm hides still counts as a binding.
-    `<div xmlns="…svg"><svg/></div>` with `div` in no namespace is written `<div><svg></svg></div>`. -/
+/-- `<div xmlns="…svg"><svg/></div>` with `div` in no namespace: the hidden declaration is no binding. -/
 example :
     toHtmlString witnessEnv (.node (.element 2) [.node (.namespace 0 2) [], .node (.element 3) []]) [] = .ok
-      ['<','!','D','O','C','T','Y','P','E',' ','h','t','m','l','>','<','d','i','v','>','<','s','v','g','>','<','/','s','v','g','>',
-       '<','/','d','i','v','>'] := by decide
+      ['<','!','D','O','C','T','Y','P','E',' ','h','t','m','l','>','<','d','i','v','>','<','s','v','g',' ','x','m','l','n','s','=','"','h','t','t','p',':','/','/','w','w','w','.','w','3','.','o','r','g','/','2','0','0','0','/','s','v','g','"','>','<','/','s','v','g','>','<','/','d','i','v','>'] := by decide
 
 /-! ### Non-vacuity -/
 
@@ -592,8 +584,7 @@ example :
       (.node .document [.node (.text ['a','<','&']) []]) [] = .ok ['<','!','D','O','C','T','Y','P','E',' ','h','t','m','l','>','a','&','l','t',';','&','a','m','p',';'] := by decide
 
 /-- `C19_unprefixed` / `C19_ids_ne_xml`: the hypotheses hold in the witness vocabulary. -/
-example : witnessEnv.namespaces[Env.xmlNamespace]? = some xmlNs ∧
-    (htmlCtx witnessEnv {}).h.mustBeUnprefixed ((htmlCtx witnessEnv {}).env.nsOfName 3) = true ∧
+example : (htmlCtx witnessEnv {}).h.mustBeUnprefixed ((htmlCtx witnessEnv {}).env.nsOfName 3) = true ∧
     (htmlCtx witnessEnv {}).h.isHtmlNamespace ((htmlCtx witnessEnv {}).env.nsOfName 2) = true := by decide
 
 end XotModel.Props
